@@ -143,6 +143,28 @@ Theorem C15_dedup : forall l,
 Proof. exact dedup_spec. Qed.
 Print Assumptions C15_dedup.
 
+(* ... for ANY position of the repetitions (not only neighbours): the result is a subsequence of the input (registration
+   order), its members are exactly the entries at the first position of their (function, id), and every registered pair occurs
+   exactly once *)
+Theorem C15_dedup_any_position : forall l,
+  subseq (deduplicated l) l /\
+  (forall h, In h (deduplicated l) <->
+             exists pre post, l = pre ++ h :: post /\ ~ In (hkey_of h) (map hkey_of pre)) /\
+  (forall h, In h l -> occurrences (hkey_of h) (deduplicated l) = 1%nat).
+Proof. exact dedup_any_position. Qed.
+Print Assumptions C15_dedup_any_position.
+
+Example C15_dedup_nonadjacent :
+  rids (get_handlers [] [ex_A DUpdate; ex_B DUpdate; ex_A (DResume false)] ex_downtime_update) = Ok ["a"; "b"]%string /\
+  rids (get_handlers [] [ex_A DUpdate; ex_B DUpdate; ex_A (DResume false); ex_B (DResume false)] ex_downtime_update)
+    = Ok ["a"; "b"]%string /\
+  rids (get_handlers [] [ex_A DUpdate; ex_B DUpdate; ex_B DField; ex_A DUpdate; ex_A (DResume false)] ex_downtime_update)
+    = Ok ["a"; "b"]%string /\
+  rids (get_handlers [] [ex_A DUpdate; decorate DUpdate "a" 1 ex_sel [] [] None None CNone CNone CNone; ex_A (DResume false)]
+                     ex_downtime_update) = Ok ["a"; "a"]%string.
+Proof. exact ex_dedup_nonadjacent. Qed.
+Print Assumptions C15_dedup_nonadjacent.
+
 Example C15_dedup_example :
   rids (get_handlers [] ex_twice
          {| c_class := CChanging; c_resource := ex_resource; c_body := ex_body (Some (JNum 1)); c_old := None;
